@@ -5,6 +5,8 @@ import json, os, subprocess
 VERIF = os.path.dirname(os.path.dirname(os.path.abspath(__file__)))
 ALL = ["C%02d" % i for i in range(1, 21)]
 
+SM2NOTE = 'Trusted: TLC/SANY; SM2.tla/EC.tla (model-checked on a toy curve: group axioms, round trip, rule coverage, VerifyTight); BigNat/EC Java accelerators compared with the pure TLA+ definitions on every run (pure 256-bit re-validation is infeasible: one modular inverse costs ~25 min in pure TLA+). 256-bit inputs are sampled outside the solved classes.'
+
 CLAIMED = {
     "C04": dict(
         technique="TLA+ spec (SM3 definition + HashObj machine), TLC exhaustive small model, TLC trace validation of recorded real executions, model-based histories replayed on the code",
@@ -55,6 +57,48 @@ CLAIMED = {
              "the repeated call to give the same answer; same for sm3 Sum with and without spare capacity.",
         note="Trusted: TLC/SANY, the specs' vectors, the executor's buffer layout code. Array reuse is recorded, not demanded.",
         ref="6 C10"),
+    "C01": dict(
+        technique="TLA+ SM2/EC definition model-checked exhaustively on a toy curve; TLC trace validation of derive-sign-verify round trips on the real code with solved leading-zero classes",
+        text="TLC checks for ALL (d, e, k) of a toy prime-order curve that every signature SignDef produces satisfies VerifyDef; on "
+             "the real code every derive/sign/verify round trip (all three entry-point pairs; signatures solved so that r, s or "
+             "(r+s) mod n has 1..8 leading zero bytes; boundary and short keys; rejected candidates first) is recorded and TLC "
+             "requires public key = [d]G, signature = the standard's value, verifier accepted, no panic.",
+        note=SM2NOTE, ref="6 C01"),
+    "C02": dict(
+        technique="TLA+ SM2 signing definition + SignFlow machine; nonce/digest pairs solved per rejection rule; TLC trace validation incl. bytes consumed",
+        text="Streams whose first candidates are solved to hit each rejection rule (k >= n, k = 0, r = 0, r + k = n, s = 0) alone and "
+             "in every order before a valid nonce, digests solved for leading-zero r/s, all key classes; TLC recomputes (r, s, "
+             "error, bytes consumed from the reader) with module SM2 on the SM2 curve and the SignFlow/Reader machines. The toy "
+             "model shows each rule fires and that the coded formula (k+r)/(1+d)-r equals the standard's.",
+        note=SM2NOTE, ref="6 C02"),
+    "C03": dict(
+        technique="TLA+ VerifyDef as oracle; forged triples solved to satisfy the equation while violating one side condition; TLC trace validation",
+        text="Valid triples, every single-bit flip of each argument (quick: seeded sample), wrong lengths, and triples solved in the "
+             "group so that the verification equation holds while exactly one side condition fails (r=0, s=0, r>=n, s>=n, r+s=n, "
+             "R=O), non-canonical / off-curve / degenerate public keys; TLC decides every verdict with VerifyDef. The toy model "
+             "shows VerifyDef accepts only what some nonce produces.",
+        note=SM2NOTE, ref="6 C03"),
+    "C12": dict(
+        technique="TLA+ SignFlow/Reader machines (model-checked in MC_Reader) + EC definition; TLC trace validation of key generation, key test, derivation, curve test",
+        text="GenerateKey on streams with candidates 0, n-1, n, n+1, 2^256-1 in every order before a valid one (key, [d]G and bytes "
+             "consumed recomputed by TLC), TestPrivateKey/DerivePublic/CheckOnCurve on boundary values, other lengths, one-bit "
+             "neighbours, non-canonical x+p coordinates.",
+        note=SM2NOTE, ref="6 C12"),
+    "C13": dict(
+        technique="TLA+ SM3 + SM2 definitions as independent oracle for ZA and e; TLC trace validation of id/za-level entry points",
+        text="ZA for id lengths 0..N, around 8000 and across the ENTL limit; id- and za-level sign+verify for message lengths over "
+             "every residue mod 64; TLC recomputes ZA and e = SM3(ZA||M) with the TLA+ SM3 (independent of the repository's) and "
+             "the signature with module SM2.",
+        note=SM2NOTE + " OpenSSL cross-signatures not used.", ref="6 C13"),
+    "C19": dict(
+        category="model_checking",
+        technique="TLA+ Reader x SignFlow model checked exhaustively by TLC (all scripts of <= 3 Read results); its script shapes and every fault offset replayed on the real code and validated by TLC",
+        text="TLC enumerates all scripts of at most 3 Read results (chunk 0/short/unit/over-unit, error none/EOF/fault) on the toy "
+             "instance and checks the loops against the unit-stream definition; every script shape is concretised to 32-byte "
+             "units with 0..2 rejected candidates first, plus the first failure at every byte offset 0..96 (both error "
+             "styles), ragged short reads and the nil reader, for GenerateKey and SignHashed (and wrappers); TLC recomputes "
+             "(error?, no public key/signature, bytes consumed).",
+        note=SM2NOTE + " An error delivered together with the bytes that complete a unit is not a failed draw (io.ReadFull).", ref="6 C19"),
     "C20": dict(
         technique="TLA+ definitions (Util) + algorithm-as-coded model (CmpNaf) checked exhaustively by TLC at small size; TLC trace validation of recorded calls",
         text="TLC checks exhaustively that the borrow-chain comparison and the signed-window recoding loop as coded "
